@@ -93,6 +93,10 @@ struct array {
 
         owning_data_t & operator=(const owning_data_t & o)
         {
+            if (this == &o) {
+                return *this;
+            }
+
             m_size = o.m_size;
             m_ptr = std::make_unique<vector_t[]>(m_size);
 
@@ -103,6 +107,8 @@ struct array {
                     m_ptr.get(), o.m_ptr.get(), m_size * sizeof(vector_t)
                 );
             }
+
+            return *this;
         }
 
         configuration_t get_configuration() const
